@@ -311,8 +311,22 @@ func newEvaluator(rule string) (ev *parser.Evaluator, err error, escaped string)
 		}
 	}()
 	ev, err = parser.NewEvaluator(rule)
+	// Every third evaluator is followed by the creation of an evaluator for another rule text (the previous one seen)
+	// before it is used: an evaluator must not depend on what is parsed after it (C11), and the per-property checks must
+	// see a parse tree that still reads a recycled buffer. The decoy is dropped at once; it changes no expected outcome.
+	decoyTick++
+	if decoyTick%3 == 0 && lastRuleText != "" && lastRuleText != rule {
+		func() {
+			defer func() { recover() }()
+			parser.NewEvaluator(lastRuleText)
+		}()
+	}
+	lastRuleText = rule
 	return
 }
+
+var decoyTick int
+var lastRuleText string
 
 // evalFresh: NewEvaluator + Process on a fresh evaluator.
 func evalFresh(rule string, obj map[string]interface{}) Obs {
